@@ -75,7 +75,7 @@ func Profiles() map[string]*Profile {
 	add(&Profile{Name: "C04", Weights: mergeW(mergeW(baseWeights(), snapW), map[string]float64{"visit": 2, "setcoll": 0.3, "rmcoll": 0.3, "close": 0.15, "audit": 2, "revert": 0.15, "evict": 3}),
 		AuditMode: "visit", MaxStores: 1, AllowMem: true, MemOnlyP: 0.2, MinOps: 10, MaxOps: 70, LongRunP: 0.03, LongOps: 600,
 		MaxColls: 3, MaxKeys: 24, CBChoices: allCB, CustomCmp: true, Nested: true, CheckWrites: true, PrioModes: []int{0, 1, 2, 4}})
-	add(&Profile{Name: "C06", Weights: mergeW(baseWeights(), map[string]float64{"visit": 10, "iter": 3, "get": 0.5, "getitem": 0.5, "exist": 0, "min": 0.2, "max": 0.2, "totals": 0.2, "evict": 3, "audit": 0.3}),
+	add(&Profile{Name: "C06", Weights: mergeW(baseWeights(), map[string]float64{"visit": 10, "iter": 3, "get": 0.5, "getitem": 0.5, "exist": 0, "min": 0.2, "max": 0.2, "totals": 0.2, "evict": 3, "audit": 0.3, "revert": 0.4, "setcoll": 0.3, "snapshot": 0.3, "snapclose": 0.2}),
 		Judge:     []string{"visit", "iter", "audit"},
 		AuditMode: "visit", MaxStores: 1, AllowMem: true, MemOnlyP: 0.2, MinOps: 10, MaxOps: 80, LongRunP: 0.03, LongOps: 800,
 		MaxColls: 3, MaxKeys: 40, CBChoices: allCB, CustomCmp: true, PrioModes: []int{0, 0, 1, 2, 3, 4}})
@@ -95,7 +95,7 @@ func Profiles() map[string]*Profile {
 		Judge:     []string{"copyto"},
 		AuditMode: "visit", MaxStores: 1, AllowMem: true, MemOnlyP: 0.15, MinOps: 8, MaxOps: 60, LongRunP: 0.02, LongOps: 300,
 		MaxColls: 4, MaxKeys: 30, CBChoices: allCB, CustomCmp: true, BigValues: true, CheckWrites: true, PrioModes: []int{0, 1, 2, 4}})
-	add(&Profile{Name: "C12", Weights: mergeW(baseWeights(), map[string]float64{"setcoll": 4, "rmcoll": 2.5, "names": 2, "getcoll": 2, "flush": 2, "reopen": 1.5, "audit": 1.5, "snapshot": 0.5, "snapclose": 0.3, "visit": 1}),
+	add(&Profile{Name: "C12", Weights: mergeW(baseWeights(), map[string]float64{"setcoll": 4, "rmcoll": 2.5, "names": 2, "getcoll": 2, "flush": 2, "reopen": 1.5, "audit": 1.5, "snapshot": 0.5, "snapclose": 0.3, "visit": 1, "write": 0.8}),
 		Judge:     []string{"setcoll", "rmcoll", "names", "getcoll", "audit", "open", "reopen"},
 		AuditMode: "visit", MaxStores: 1, AllowMem: true, MemOnlyP: 0.2, MinOps: 10, MaxOps: 70, LongRunP: 0.02, LongOps: 400,
 		MaxColls: 5, MaxKeys: 12, CBChoices: allCB, CustomCmp: true, Nested: true, PrioModes: []int{0, 1, 4}})
@@ -135,7 +135,7 @@ func Profiles() map[string]*Profile {
 		Judge:     []string{"open", "reopen", "flush"},
 		AuditMode: "visit", MaxStores: 1, MinOps: 6, MaxOps: 40, LongRunP: 0.02, LongOps: 150,
 		MaxColls: 3, MaxKeys: 14, CBChoices: []int{0, 0, 0, CBValWrite | CBValLength, CBAll}, CustomCmp: true, AdvValues: true, CheckDecode: true, PrioModes: []int{0, 1, 4}})
-	add(&Profile{Name: "C07", CheckFree: true, Weights: mergeW(mergeW(baseWeights(), snapW), map[string]float64{"flush": 3, "reopen": 2.5, "visit": 3, "iter": 1, "copyto": 0.5, "revert": 0.5, "evict": 3, "len": 0.3, "snapwrite": 0, "snaprevert": 0, "exist": 0}),
+	add(&Profile{Name: "C07", CheckFree: true, Weights: mergeW(mergeW(baseWeights(), snapW), map[string]float64{"flush": 3, "reopen": 2.5, "visit": 3, "iter": 1, "copyto": 0.5, "revert": 0.5, "evict": 3, "len": 0.3, "snapwrite": 0, "snaprevert": 0.5, "exist": 0}),
 		AuditMode: "visit", MaxStores: 1, MinOps: 6, MaxOps: 30,
 		MaxColls: 2, MaxKeys: 12, CBChoices: []int{0, 0, 0, CBAll, CBValRead | CBValWrite}, CustomCmp: true, CheckDecode: true, PrioModes: []int{0, 1, 4}})
 	return ps
